@@ -678,6 +678,8 @@ class Interp:
             for s, t in self.cond(n.test, st):
                 res.extend(self.block(n.body if t else n.orelse, s))
             return res
+        if isinstance(n, ast.Pass):
+            return [(st, 'next', None)]
         if isinstance(n, ast.While):
             return self.loop(n, st)
         if isinstance(n, ast.Break):
@@ -687,6 +689,26 @@ class Interp:
         raise Unsupported('stmt %s line %s' % (type(n).__name__, n.lineno))
 
     def loop(self, n, st):
+        # a flag-controlled loop `more = True` / `while more: BODY; more = E` is the loop `while True: BODY; if not E: break`
+        if isinstance(n.test, ast.Name) and n.body and not n.orelse:
+            v = n.test.id
+            last = n.body[-1]
+            stores = [x for b in n.body for x in ast.walk(b) if isinstance(x, ast.Name) and x.id == v and isinstance(x.ctx, ast.Store)]
+            val = st.env.get(v)
+            if isinstance(last, ast.Assign) and len(last.targets) == 1 and isinstance(last.targets[0], ast.Name) and last.targets[0].id == v \
+                    and len(stores) == 1 and val is not None and val[0] == 'const' and val[1] is True \
+                    and not any(isinstance(x, ast.Continue) for b in n.body for x in ast.walk(b)):
+                brk = ast.copy_location(ast.If(test=ast.copy_location(ast.UnaryOp(op=ast.Not(), operand=last.value), last),
+                                               body=[ast.copy_location(ast.Break(), last)], orelse=[]), last)
+                n2 = ast.copy_location(ast.While(test=ast.copy_location(ast.Constant(value=True), n.test), body=list(n.body[:-1]) + [brk], orelse=[]), n)
+                ast.fix_missing_locations(n2)
+                return self.loop(n2, st)
+        # the summary below evaluates the test on the state at loop entry: a test that reads a variable the body assigns cannot be
+        # summarised that way - refuse rather than drop the exits
+        test_names = {x.id for x in ast.walk(n.test) if isinstance(x, ast.Name)}
+        body_stores = {x.id for b in n.body for x in ast.walk(b) if isinstance(x, ast.Name) and isinstance(x.ctx, ast.Store)}
+        if test_names & body_stores:
+            raise Unsupported('loop test reads %s, assigned in the loop body, line %s' % (sorted(test_names & body_stores), n.lineno))
         # summarise: star(iter) . exit
         base = st.clone()
         pre_len = len(base.out)
